@@ -791,12 +791,13 @@ impl Client {
         // Then, pick which currently-alive relay server from the
         // current report has the best latency over the past MAX_AGE.
         let mut best_any = Duration::default();
-        let mut old_relay_cur_latency = Duration::default();
+        // The lowest latency of the previous preferred relay in the current report.
+        let old_relay_cur_latency = prev_relay
+            .as_ref()
+            .and_then(|url| r.relay_latency.get(url))
+            .unwrap_or_default();
         {
-            for (_, url, duration) in r.relay_latency.iter() {
-                if Some(url) == prev_relay.as_ref() {
-                    old_relay_cur_latency = duration;
-                }
+            for (_, url, _) in r.relay_latency.iter() {
                 if let Some(best) = best_recent.get(url)
                     && (r.preferred_relay.is_none() || best < best_any)
                 {
